@@ -166,8 +166,13 @@ def run_one(ctx, prog, cases, metas):
         if isinstance(e, AttributeError) and "compute_value" in str(e) and "clause_to_cpt" in frames:
             # enum_clauses yields a fact without probability (an atom that is certainly true / a negated literal)
             klass = "bn-export-crash-fact-without-probability"
-        if isinstance(e, MissingFactor) and any(it["kind"] == "ad" and not it["body"] and len(it["heads"]) >= 2 and
-                                                 e.name in [h for h, _ in it["heads"]] for it in prog["items"]):
+        import re
+        mname = None
+        if isinstance(e, MissingFactor):
+            mm = re.match(r"^choice\(\d+,\d+,(.*)\)$", e.name)     # unlabeled head keeps its choice(Id,Index,Head) name
+            mname = mm.group(1) if mm else e.name
+        if mname is not None and any(it["kind"] == "ad" and not it["body"] and len(it["heads"]) >= 2 and
+                                     mname in [h for h, _ in it["heads"]] for it in prog["items"]):
             # the only relevant head of a body-less multi-head AD is exported under the name of the disjunction that
             # uses it (extract_ads takes names from conj/disj parents only): its own variable is missing although other
             # factors list it as parent -> the printed network defines no joint distribution
